@@ -2,7 +2,7 @@
 From Coq Require Import Ascii String List Bool Arith ZArith NArith.
 From PTBase Require Import Exn PyStr PyNum PyVal Fmt FixedFormat.
 From Gen Require Import GenTables GenSections.
-From P Require Import Comb Obj Fields Idem Sections SectionsB Rec SecRocks SecMesh SecGener SecMisc SecParam SecHist SecSel SecShort SecMeshm T2DataIO Whole Xp Example Bin BinEx.
+From P Require Import Comb Obj Fields Idem Sections SectionsB Rec SecRocks SecMesh SecGener GenerLines SecMisc SecParam SecHist SecSel SecShort SecMeshm T2DataIO Whole Xp Example Bin BinEx.
 Import ListNotations.
 Open Scope string_scope.
 
@@ -61,6 +61,30 @@ Theorem gener_read_write : forall T d body, gener_table_ok T = true -> write_gen
   forall d0 rest, read_gens T d0 (body ++ rest)%list = Ok (set_gens d0 (canon_gens T (gens d)), rest).
 Proof. exact gens_roundtrip. Qed.
 Print Assumptions gener_read_write.
+(** GENER, every generator type, no well-formedness hypothesis: the number of lines written is decided by the one
+    table count [abs(ltab) if ltab and type != 'DELV' else 1] that the reader computes too *)
+Theorem generator_lines_written : forall T g ls, write_gen T g = Ok ls ->
+  exists nt, gen_ntimes (g_ltab g) (g_type g) = Ok nt /\ length ls = gen_nlines g nt.
+Proof. exact gen_lines_written. Qed.
+Print Assumptions generator_lines_written.
+Theorem delv_generator_written_on_one_line : forall T g ls, g_type g = s2l "DELV" -> write_gen T g = Ok ls -> length ls = 1%nat.
+Proof. exact delv_one_line_written. Qed.
+Print Assumptions delv_generator_written_on_one_line.
+Theorem delv_generator_read_from_one_line : forall T acc line r gs r',
+  sval (vnth (pline T "generator" line) 7) = s2l "DELV" ->
+  read_gen T acc line r = Ok (gs, r') ->
+  r' = r /\ exists g, gs = g :: acc /\ g_time g = [] /\ g_rate g = [] /\ g_enth g = [] /\
+                      g_ltab g = vnth (pline T "generator" line) 5.
+Proof. exact delv_one_line_read. Qed.
+Print Assumptions delv_generator_read_from_one_line.
+Theorem generator_lines_hypotheses_met :
+  (exists l1, write_gen t2data_format delv_gen = Ok [l1] /\
+    sval (vnth (pline t2data_format "generator" l1) 7) = s2l "DELV" /\
+    exists g, read_gen t2data_format [] l1 [s2l "next"] = Ok ([g], [s2l "next"]) /\ g_ltab g = XInt 3) /\
+  (exists ls, write_gen t2data_format mass_gen = Ok ls /\ gen_ntimes (g_ltab mass_gen) (g_type mass_gen) = Ok 5%Z /\
+    length ls = 7%nat /\ gen_nlines mass_gen 5 = 7%nat).
+Proof. exact (conj delv_example mass_example). Qed.
+Print Assumptions generator_lines_hypotheses_met.
 Theorem incon_read_write : forall T d body, incon_table_ok T = true -> write_incons T d = Ok (kw "INCON" :: body) ->
   forallb (wf_inc T) (incon_items d) = true ->
   forall d0 rest, incon d0 = [] -> read_incons T d0 (body ++ rest)%list = Ok (set_incon d0 (canon_incons T d), rest).
